@@ -115,11 +115,15 @@ func VerifH_C15_k8sChunks() {
 
 // C13: any content of the log field (empty string, number, bool, null, object) is survived.
 func VerifH_C13_k8sLogField() {
-	vals := []string{`""`, `"x"`, `"\n"`, `1`, `12`, `123`, `true`, `null`, `"ab\n"`, `"\\"`}
-	v := vals[vf.Choose("log-value", len(vals))]
+	vals := []string{`""`, `"x"`, `"\n"`, `1`, `12`, `123`, `true`, `null`, `"ab\n"`, `"\\"`, `[1]`, `{"a":1}`}
+	k := vf.Choose("log-value", len(vals)+1)
 	p := verifAction(0, false)
 	root := insaneJSON.Spawn()
-	_ = root.DecodeString(`{"log":` + v + `,` + verifMetaFields + `}`)
+	if k == len(vals) {
+		_ = root.DecodeString(`{` + verifMetaFields + `}`) // a line without the log field at all
+	} else {
+		_ = root.DecodeString(`{"log":` + vals[k] + `,` + verifMetaFields + `}`)
+	}
 	ev := &pipeline.Event{Root: root, Size: 20}
 	res := p.Do(ev)
 	if vf.Param("twin", 0) == 1 {
